@@ -758,7 +758,7 @@ func (x *Exec) modularCall(site ssa.Instruction, fn *ssa.Function, fc *FuncContr
 	callName := fmt.Sprintf("call %s", fnDisplayName(fn))
 	// requires
 	for i, rq := range fc.Requires {
-		env := &SpecEnv{u: u, x: x, pkg: pkg, vars: vars, bound: map[string]SVal{}, cur: pre, old: pre, reach: x.curBlockReach}
+		env := &SpecEnv{owner: fn, u: u, x: x, pkg: pkg, vars: vars, bound: map[string]SVal{}, cur: pre, old: pre, reach: x.curBlockReach}
 		g, err := env.EvalBool(rq.Expr)
 		if err != nil {
 			u.Errorf("%s: requires %q at call in %s: %v", full, rq.Text, x.fn, err)
@@ -777,7 +777,7 @@ func (x *Exec) modularCall(site ssa.Instruction, fn *ssa.Function, fc *FuncContr
 		if closed {
 			continue // a global definition of the spec function, not an interpretation relative to the callee's parameters
 		}
-		env := &SpecEnv{u: u, x: x, pkg: pkg, vars: vars, bound: map[string]SVal{}, cur: pre, old: pre, reach: x.curBlockReach}
+		env := &SpecEnv{owner: fn, u: u, x: x, pkg: pkg, vars: vars, bound: map[string]SVal{}, cur: pre, old: pre, reach: x.curBlockReach}
 		g, err := env.EvalBool(d.Expr)
 		if err != nil {
 			u.Errorf("%s: defines %q at call in %s: %v", full, d.Text, x.fn, err)
@@ -891,7 +891,7 @@ func (x *Exec) modularCall(site ssa.Instruction, fn *ssa.Function, fc *FuncContr
 			if en.Private {
 				continue
 			}
-			env := &SpecEnv{u: u, x: x, pkg: pkg, vars: postVars, bound: map[string]SVal{}, cur: st, old: pre, reach: x.curBlockReach, callSite: true, noAlts: true}
+			env := &SpecEnv{owner: fn, u: u, x: x, pkg: pkg, vars: postVars, bound: map[string]SVal{}, cur: st, old: pre, reach: x.curBlockReach, callSite: true, noAlts: true}
 			g, err := env.EvalBool(en.Expr)
 			if err != nil {
 				u.Errorf("%s: ensures %q at call in %s: %v", full, en.Text, x.fn, err)
@@ -925,7 +925,7 @@ func (x *Exec) frameFromContract(fc *FuncContract, fn *ssa.Function, vars map[st
 			fr.any = true
 			continue
 		}
-		env := &SpecEnv{u: u, x: x, pkg: pkg, vars: vars, bound: map[string]SVal{}, cur: pre, old: pre, reach: TTrue}
+		env := &SpecEnv{owner: fn, u: u, x: x, pkg: pkg, vars: vars, bound: map[string]SVal{}, cur: pre, old: pre, reach: TTrue}
 		its, err := env.frameItem(item)
 		if err != nil {
 			u.Errorf("%s: modifies %q: %v", fc.Key, item, err)
